@@ -129,6 +129,7 @@ mod raw {
 
             let mut stdout_ref = self.stdout.as_ref();
             let mut stderr_ref = self.stderr.as_ref();
+            let mut polled = false;
 
             loop {
                 if let Some(size_limit) = size_limit {
@@ -141,6 +142,16 @@ mod raw {
                     // When no stream remains, we are done.
                     break;
                 }
+
+                // poll() only times out when nothing is ready, so a child
+                // that keeps some stream ready would keep us here forever.
+                // Honor the deadline after every round of I/O.
+                if let (true, Some(deadline)) = (polled, deadline) {
+                    if Instant::now() >= deadline {
+                        return Err(io::Error::new(io::ErrorKind::TimedOut, "timeout"));
+                    }
+                }
+                polled = true;
 
                 let (in_ready, out_ready, err_ready) =
                     maybe_poll(self.stdin.as_ref(), stdout_ref, stderr_ref, deadline)?;
